@@ -152,6 +152,19 @@ ADDENDA = {
     "C15": "Round 4: unordered collections hash order-independently and no hash reads addresses / layout / raw storage (C13.b, C13.c as C15.d).",
     "C16": "Later clauses: on_write polarity, unpin leaves the Pinned region. D12: a region head is unwrapped only under a test of that region's own length (C16.f). The maintenance flag's protocol (C16.g); the refused key is the parked key (C16.h); the trim loop continues past pinned keys (C16.i, D18).",
 }
+ROUND6 = {
+    "C02": "Round 6: abort_callee removes only on the path where no request for the callee is in flight AND none has completed; keep_callee raises `kept` (C02.i, second obligation).",
+    "C03": "Round 6: every stored fingerprint is the hash of the value stored next to it and a clean verification keeps the value fingerprint, also when clean_query rebuilds the node info through its constructor (C01.h as C03.l).",
+    "C04": "Round 6: the timestamp a session stores is the epoch it runs in and Sync::new resumes from it (C07.d as C04.j).",
+    "C07": "Round 6: the committer gives up only when nothing is ready and its expected epoch only advances by one - no whole-value overwrite of the live CurrentBatch (C10.a, C10.h as C07.i).",
+    "C08": "Round 6: C08.a diagnoses a firewall arm that creates more than one batch or submits the propagated batch on its own.",
+    "C10": "Round 6: C10.a follows the apply step into a local helper; C10.h also rejects mem::replace / swap / take / `*self =` on a live CurrentBatch unless the replacement is built in place from the old expected_epoch.",
+    "C11": "Round 6: every call of a mutating entry point of the store sits in the backend's WriteBatch::commit, both backends (C11.j, who-may-call with a positive control).",
+    "C12": "Round 6: in every container decoder the bound of the element loop is the length read from the stream - no clamp, no arithmetic (C12.n, 14 loops; BitVec's bits-to-elements conversion excepted).",
+    "C16": "Round 6: the per-query lock table's pin predicate reads Arc::strong_count of the stored lock (C02.d as C16.j).",
+}
+for k_, v_ in ROUND6.items():
+    ADDENDA[k_] = (ADDENDA.get(k_, "") + " " + v_).strip()
 for k_, v_ in ADDENDA.items():
     t_ = CLAIMED[k_]
     CLAIMED[k_] = (t_[0], t_[1] + " " + v_, t_[2])
